@@ -219,7 +219,8 @@ def run_check(prop, tier, seed, a, t0):
     bounded = None
     bpath = os.path.join(ROOT, "bounded", "%s.py" % prop)
     if os.path.exists(bpath) and not a.no_bounded:
-        outp = os.path.join(ROOT, "build", "%s.bounded.json" % prop)
+        # (one result file per checker process: two checks of the same property may run at the same time)
+        outp = os.path.join(ROOT, "build", "%s.bounded.%d.json" % (prop, os.getpid()))
         if os.path.exists(outp):
             os.unlink(outp)
         env = dict(os.environ)
@@ -233,6 +234,7 @@ def run_check(prop, tier, seed, a, t0):
         if os.path.exists(outp):
             bounded = json.load(open(outp))
             bounded["wall_s"] = round(time.time() - tb, 2)
+            os.unlink(outp)
         else:
             checker_failure.append("bounded harness produced no result: rc=%s %s" % (p.returncode, (p.stderr or p.stdout)[-800:]))
         if bounded:
